@@ -49,7 +49,9 @@ func runC02(c *ctx) {
 	qerrors := []string{"", "access_denied"}
 	qisses := []string{"absent", "equal", "different"}
 	for _, issSup := range []bool{false, true} {
-		s := newSut(sutOpts{issParam: issSup, sidRequired: true})
+		// several ingresses: the callback may arrive through another ingress (path prefix / forwarded host) than the login that minted the cookie;
+		// the code must still be redeemed with the redirect URI BOUND IN THE COOKIE
+		s := newSut(sutOpts{issParam: issSup, sidRequired: true, ingresses: []string{"http://other.example", "http://wonderwall", "http://wonderwall/app"}})
 		rp := s.replica("A")
 		base := "http://wonderwall"
 		// a logged-in browser (session cookie ciphertext) and a logout cookie
@@ -170,7 +172,18 @@ func runC02(c *ctx) {
 							}
 							keysBefore := s.mr.Keys()
 							nc := s.idp.callCount()
-							resp := b.do(rp, "GET", base+"/oauth2/callback?"+q.Encode(), http.Header{"Sec-Fetch-Mode": {"navigate"}, "Sec-Fetch-Dest": {"document"}})
+							cbBase, cbHdr := base, http.Header{"Sec-Fetch-Mode": {"navigate"}, "Sec-Fetch-Dest": {"document"}}
+							via := "same"
+							if dev <= 1 || r.chance(1, 6) {
+								switch r.intn(3) {
+								case 1:
+									via, cbBase = "prefix", base+"/app"
+								case 2:
+									via = "xfh"
+									cbHdr.Set("X-Forwarded-Host", "other.example")
+								}
+							}
+							resp := b.do(rp, "GET", cbBase+"/oauth2/callback?"+q.Encode(), cbHdr)
 							calls := s.idp.callsSince(nc)
 							keysAfter := s.mr.Keys()
 							sort.Strings(keysBefore)
@@ -195,7 +208,7 @@ func runC02(c *ctx) {
 								"qstate", hx(q.Get("state")), "qcode", hx(q.Get("code")), "qerror", hx(q.Get("error")), "qiss", hx(q.Get("iss")),
 								"status", resp.Status, "calls", len(calls), "sentcode", hx(sentCode), "sentverifier", hx(sentVer), "sentredirect", hx(sentRedir),
 								"storechanged", strings.Join(keysBefore, ",") != strings.Join(keysAfter, ","), "sesscookie", sessSet, "logincleared", loginCleared,
-								"cls", kind+"/"+qs+"/"+qc+"/"+qe+"/"+qi+"/"+fmtVal(issSup))
+								"via", via, "cls", kind+"/"+qs+"/"+qc+"/"+qe+"/"+qi+"/"+fmtVal(issSup)+"/"+via)
 						}
 					}
 				}
